@@ -53,6 +53,7 @@ type world struct {
 	accLTPK []byte
 	pin     string
 	lastOK  [][]byte // request bodies of the last completed pair-setup
+	lastVerifyPriv map[string]*[32]byte // per controller: the exchange private key of its last accepted pair-verify
 	wseg    int
 }
 
@@ -110,7 +111,7 @@ func newWorld(pin string, nacc int) (*world, error) {
 
 // newWorldAt starts a transport for the given accessories on an existing storage directory
 func newWorldAt(dir string, cfg hc.Config, accs []*accessory.Accessory) (*world, error) {
-	w := &world{conns: map[string]*ctlConn{}, ids: map[string]*identity{}, setups: map[string]*setupRun{}, verifs: map[string]*verifyRun{}}
+	w := &world{conns: map[string]*ctlConn{}, ids: map[string]*identity{}, setups: map[string]*setupRun{}, verifs: map[string]*verifyRun{}, lastVerifyPriv: map[string]*[32]byte{}}
 	w.dir = dir
 	w.accs = accs
 	pin := cfg.Pin
@@ -583,6 +584,20 @@ func (w *world) pairVerify(cn, ctrl, variant string) string {
 		if _, ok := step(v.m1(nil, w.accLTPK)); ok {
 			if m, ok := step(v.m3(id.name, id.priv, "")); ok && len(m[tState]) > 0 && m[tState][0] == 4 {
 				success = true
+				k := v.priv
+				w.lastVerifyPriv[id.name] = &k
+			}
+		}
+	case "samekey-badsig", "samekey-reordered":
+		// the controller's exchange key pair of its last ACCEPTED exchange is used again (on this other connection), and the
+		// finish carries a signature that is not valid for this exchange
+		fresh()
+		v.keepPriv = w.lastVerifyPriv[id.name]
+		if _, ok := step(v.m1(nil, w.accLTPK)); ok {
+			if variant == "samekey-badsig" {
+				step(v.m3(id.name, newIdentity("x").priv, ""))
+			} else {
+				step(v.m3(id.name, id.priv, "reordered"))
 			}
 		}
 	case "badsig", "unknown", "unknowntail", "reordered", "stale", "zerokey", "randkey", "flip", "inner-garbage", "short0", "short7", "short15", "short16", "reflect", "accname":
